@@ -3002,3 +3002,57 @@ func H_C11_lateFork(na, nb int) {
 		}
 	}
 }
+
+// H_C10_validateText: the outputs a job left are validated against the stage's
+// three declared outputs; each declared output is arbitrarily present, missing
+// or ill-typed, and two undeclared ones may be there.  The same for the
+// arguments of the consumer against its three declared inputs.
+//
+//	C10: the error and alarm texts (what mrp writes to _errors / _alarm) are
+//	     the same under four map iteration orders.
+func H_C10_validateText() {
+	w := vrErrGraph()
+	types := w.ps.node.top.types
+	outs := LazyArgumentMap{}
+	for _, k := range []string{"a", "b", "c"} {
+		switch v := verifInt("state of " + k); {
+		case v == 0:
+			outs[k] = json.RawMessage("1")
+		case v == 1:
+			outs[k] = json.RawMessage(`"x"`)
+		default:
+			verifAssume(v == 2)
+		}
+	}
+	if verifBool("undeclared values") {
+		outs["zz"] = json.RawMessage("1")
+		outs["yy"] = json.RawMessage("2")
+	}
+	outParams := w.gen.call.Callable().GetOutParams()
+	inParams := w.work.call.Callable().GetInParams()
+	render := func() string {
+		e1, a1 := outs.ValidateOutputs(types, outParams)
+		e2, a2 := outs.ValidateInputs(types, inParams)
+		s := a1 + "|" + a2 + "|"
+		if e1 != nil {
+			s += e1.Error()
+		}
+		s += "|"
+		if e2 != nil {
+			s += e2.Error()
+		}
+		return s
+	}
+	verifReverseMapOrder(false)
+	a := render()
+	verifReverseMapOrder(true)
+	b := render()
+	verifReverseMapOrder(false)
+	verifKeyMapOrder(1)
+	c := render()
+	verifKeyMapOrder(-1)
+	d := render()
+	verifKeyMapOrder(0)
+	verifCover("outputs and arguments validated under four map orders")
+	verifAssert(a == b && a == c && a == d, "C10: the text of output / argument validation errors does not depend on map iteration order (ghost)")
+}
